@@ -783,7 +783,7 @@ RULE = ("Monitor.tla: every operation script (Call/Slice/Index/+/extend/prepend/
         "integer index as python / numpy integer, 5 slices inside a 1-tuple) emitted by "
         "TLC is replayed on real Monitor/VerboseMonitor/LoggingMonitor/VerboseLoggingMonitor objects and every object "
         "ever created is compared (len,x,y,id) after every operation, m[i] against the record TLC names; LogFile.tla: every trajectory (<=3/4 records, "
-        "dim 1..3, scalar/vector cost, ids None/7/8, interval 1..3, k, 16 catalogue offsets) is written by the real "
+        "dim 1..3, scalar/vector cost, ids None/0/7(/8), interval 1..3, k, 16 catalogue offsets) is written by the real "
         "LoggingMonitor / munge.write_*_file and read back. evaluations = (script, class) and trajectory replays; "
         "a script is non-trivial if some +/extend/prepend/slice/index/__setitem__ yields a non-empty monitor, a trajectory "
         "if it has >= 1 record; each emitted script/trajectory is a distinct TLC state and counted once. Grown: MonNull = the "
@@ -792,7 +792,7 @@ RULE = ("Monitor.tla: every operation script (Call/Slice/Index/+/extend/prepend/
         "list) of length 2..3, m[a:b] = b for 7 bounds, m.min(), m[i] = b, extend on monitors of 3+2 and 2+1 records, 1 and 2 free "
         "operations, with the views ix/ax/iy/ay/get_x/get_y/get_id/_pos/_wts/pos/wts of the written object compared after every "
         "operation; LogSrc = every trajectory (<= 3 records, dim 1,2 / 1,2,4, plain or population of 1 / 2 members, scalar / vector "
-        "cost, ids None/7(/8), interval 0,1,2 / 0,1,3, all True/False with best 0/1, k neutral and scaling, 1 catalogue offset per "
+        "cost, ids None/0(/7), interval 0,1,2 / 0,1,3, all True/False with best 0/1, k neutral and scaling, 1 catalogue offset per "
         "run) written by Logging/VerboseLoggingMonitor and read back through logfile_reader, read_trajectories, read_history (log "
         "name, file object, monitor, solver, every 8th: the solver's restart file, every 16th: Null()), read_monitor, _process_ids, "
         "_reduce_ids, and for interval 1 / all=True also write_raw/support/converge_file -> read_raw_file, read_history, "
